@@ -1,1 +1,42 @@
-fn main() { println!("hello"); }
+//! Correspondence harness: runs the implementation on generated cases and prints one case
+//! line per case ("<channel> key=value ...") for the model driver.
+mod art;
+mod util;
+
+use std::io::Write;
+
+fn arg(args: &[String], key: &str, def: &str) -> String {
+    args.iter()
+        .position(|a| a == key)
+        .and_then(|i| args.get(i + 1))
+        .cloned()
+        .unwrap_or_else(|| def.to_string())
+}
+
+fn main() {
+    let args: Vec<String> = std::env::args().collect();
+    if args.len() < 2 {
+        eprintln!("usage: harness <channel> [--seed S] [--count N] [--maxn N] [--mode M] [--out FILE]");
+        std::process::exit(2);
+    }
+    // silence the default panic message: panics are caught per case and reported
+    std::panic::set_hook(Box::new(|_| {}));
+    let seed: u64 = arg(&args, "--seed", "1").parse().unwrap();
+    let count: usize = arg(&args, "--count", "100").parse().unwrap();
+    let maxn: usize = arg(&args, "--maxn", "40").parse().unwrap();
+    let mode = arg(&args, "--mode", "seq");
+    let outp = arg(&args, "--out", "-");
+    let mut out: Box<dyn Write> = if outp == "-" {
+        Box::new(std::io::BufWriter::new(std::io::stdout()))
+    } else {
+        Box::new(std::io::BufWriter::new(std::fs::File::create(&outp).unwrap()))
+    };
+    match args[1].as_str() {
+        "art" => art::run(seed, count, maxn, &mode, &mut out),
+        other => {
+            eprintln!("unknown channel {other}");
+            std::process::exit(2);
+        }
+    }
+    out.flush().unwrap();
+}
